@@ -1,6 +1,7 @@
 package binding
 
 import (
+	"fmt"
 	"net/http"
 	"net/url"
 
@@ -36,12 +37,19 @@ func (b FormBinder) BindValues(values url.Values, ptr any) error {
 }
 
 // DecodeUrlValues data to struct
-func DecodeUrlValues(values map[string][]string, ptr any, tagName string) error {
+func DecodeUrlValues(values map[string][]string, ptr any, tagName string) (err error) {
+	// the decoder panics on some malformed keys(eg: "tags[-1]=x"), report it as an error.
+	defer func() {
+		if ret := recover(); ret != nil {
+			err = fmt.Errorf("binding: decode data error: %v", ret)
+		}
+	}()
+
 	dec := formam.NewDecoder(&formam.DecoderOptions{
 		TagName: tagName,
 	})
 
-	if err := dec.Decode(values, ptr); err != nil {
+	if err = dec.Decode(values, ptr); err != nil {
 		return err
 	}
 	return Validate(ptr)
